@@ -390,6 +390,11 @@ def r_pickle(ctx) -> None:
     fmod = prog.module(FRAME)
     regs = [c for c in ast.walk(fmod.tree) if isinstance(c, ast.Call) and core.call_name(c) == 'copyreg.pickle']
     targets = {core.src(c.args[0]) for c in regs if c.args}
+    for c in regs:
+        if c.args and core.src(c.args[0]) == 'Schema' and len(c.args) > 1 and isinstance(c.args[1], ast.Lambda):
+            dcs = [d for d in ast.walk(c.args[1]) if isinstance(d, ast.DictComp)]
+            okd = len(dcs) == 1 and isinstance(dcs[0].generators[0].target, ast.Tuple) and core.src(dcs[0].generators[0].iter).endswith('.__dict__.items()') and core.src(dcs[0].key) == core.src(dcs[0].generators[0].target.elts[0]) and core.src(dcs[0].value) == core.src(dcs[0].generators[0].target.elts[1])
+            ctx.check(okd, 'R-PICKLE', FRAME, 'the schema reducer rebuilds the namespace under the *attribute keys* of the fields (a field may be named differently from its key: keyed by name the unpickled schema loses the attribute, or gains a duplicate of an overridden field)', c, key='copyreg:schema-keys', loc=fmod.relpath)
     ctx.check({'Schema', 'Meta'} <= targets or len(targets) >= 2, 'R-PICKLE', FRAME, f'copyreg reducers registered for metaclass-made classes: {sorted(targets)}', key='copyreg', loc=fmod.relpath)
 
 
@@ -606,11 +611,14 @@ def r_cachedep(ctx) -> None:
                 ann = core.src(a.annotation).replace("'", '') if a.annotation is not None else ''
                 if ann in ('typing.Any', 'Any', 'dsl.Native', 'Native'):
                     ctx.fail('R-CACHEDEP', fn, f'memoised by the native python value `{a.arg}: {ann}`: the cache conflates equal values of different types (1 == 1.0 == True, (1, 2) == (1.0, 2.0) - `typed=True` separates the top level only), so the kind/feature derived from the first one is served for the others', fn.node, key=f'native-key:{a.arg}')
+        if any(d in ('lru_cache', 'cache') for d in decos) and fn.name in ('__getitem__', '__getattr__', '__iter__', '__getattribute__'):
+            ctx.fail('R-CACHEDEP', fn, f'{fn.qual} is memoised by the structurally compared object: element/attribute access hands out objects *of this instance* (its schema object, its attribute keys), which equality does not fully compare - an equal instance would be served the other one\'s', fn.node, key=f'accessor-memo:{fn.qual}')
         for z in schema_feature_zips(fn.node):
             if prog.func_of_node(z) is fn:
                 ctx.fail('R-ZIPALIGN', fn, f'`{core.src(z)}` pairs a name-keyed schema (equally named fields collapse) with a positional feature sequence: positions disagree as soon as two features share a name', z)
     ctx.ok('R-CACHEDEP', 'forml.io.dsl', f'{n} memoised methods of structurally compared DSL classes checked for namespace reads; family scanned for schema/feature zips (matchers self-checked on an embedded example)')
-    ctx.floor('R-CACHEDEP.methods', n, 1)
+    # no floor: after the repairs no memoised method of a structurally compared class is left; the matchers are kept honest by the
+    # embedded positive example above and by the reverted fixes in the self-test
 
 
 def eqhash_agreement(ctx, prefixes: tuple[str, ...], rule: str = 'R-EQHASH', floor: int = 1) -> None:
